@@ -424,6 +424,12 @@ static void gen_items(void)
                 case K_INT: case K_STR: case K_ABST:
                     if (o->kind == K_ABST && vh_coin(25)) { it->noval = 1; it->sp = o->sh && vh_coin(50) ? SP_SHORT : SP_LONG; break; }
                     it->val = o->kind == K_INT ? gen_int() : PICK(STRV);
+                    /* a string value may look like an option, even like one of this table: it is still the value */
+                    if (o->kind == K_STR && vh_coin(8)) {
+                        optdef_t *q = &T[vh_below((uint64_t) NT)];
+                        it->val = (q->sh && vh_coin(50)) ? arena_fmt("-%c", q->sh) : arena_fmt("--%s", q->lname);
+                        vh_count("wf_string_value_spelling_an_option", 1);
+                    }
                     if (o->sh && vh_coin(50)) it->sp = vh_coin(50) ? SP_GLUED : SP_SHORT_SEP; else it->sp = vh_coin(50) ? SP_LONG_EQ : SP_LONG_SEP;
                     /* --long= with nothing after the '=': the value of a string option is the empty string */
                     if (o->kind == K_STR && vh_coin(7)) { it->val = ""; it->sp = SP_LONG_EQ; vh_count("wf_empty_long_eq_value", 1); }
